@@ -101,7 +101,7 @@ Definition tk_after_add : prog :=
 Definition tk_add (f : N) : prog :=
   Step L_ZADD (fun s => (r_zadd s (rt_heap t) x (round53 f), tk_after_add)).
 
-Definition tk_admitted (f : N) : prog :=
+Definition tk_accepted (f : N) : prog :=
   Step L_ZSCORE (fun s =>
     match z_score x (r_zset s (rt_heap t)) with
     | Some v => if 0 <? v then (s, Step L_ZREM (fun s' => (r_zrem s' (rt_heap t) x, tk_add f)))
@@ -113,7 +113,7 @@ Definition tk_decide (f len : N) : prog :=
   Step L_ZRANGE (fun s =>
     let z := r_zset s (rt_heap t) in
     let accept := (len <? rt_k t) || (match z with e :: _ => snd e <=? f | [] => false end) in
-    if accept then (s, tk_admitted f) else (s, Done 1)).
+    if accept then (s, tk_accepted f) else (s, Done 1)).
 
 Definition tk_counted (f : N) : prog :=
   Step L_ZCARD (fun s => (s, tk_decide f (N.of_nat (length (r_zset s (rt_heap t)))))).
